@@ -260,5 +260,88 @@ fn c12_fresh_peer_accepts_exactly_one() {
     }
 }
 
+// ---------------------------------------------------------------------------
+// System level: the per-peer acceptance state lives in a map owned by MonotonicCounterSystem.
+// "accepted at most once over the whole life of the counter store" needs the map-level
+// operations never to forget a peer's high-water mark. cleanup_old_sequences is an await-free
+// async fn: it is driven to completion by one poll. The system object is built by struct literal
+// (the constructor does file I/O); its tokio mutex is never touched by the function under proof.
+// bounded: one tracked peer (concrete id, hashed by the real SipHash), history length <= 2.
+// ---------------------------------------------------------------------------
+
+fn stub_random_state_c12() -> std::hash::RandomState {
+    unsafe { std::mem::transmute::<(u64, u64), std::hash::RandomState>((0x0123_4567_89ab_cdef, 0x0f1e_2d3c_4b5a_6978)) }
+}
+
+fn poll_once<F: std::future::Future>(f: F) -> Option<F::Output> {
+    use std::task::{Context, Poll, RawWaker, RawWakerVTable, Waker};
+    fn noop(_: *const ()) {}
+    fn clone(_: *const ()) -> RawWaker {
+        RawWaker::new(std::ptr::null(), &VT)
+    }
+    static VT: RawWakerVTable = RawWakerVTable::new(clone, noop, noop, noop);
+    let waker = unsafe { Waker::from_raw(RawWaker::new(std::ptr::null(), &VT)) };
+    let mut cx = Context::from_waker(&waker);
+    let mut f = std::pin::pin!(f);
+    match f.as_mut().poll(&mut cx) {
+        Poll::Ready(v) => Some(v),
+        Poll::Pending => None,
+    }
+}
+
+fn check_system_cleanup(n: usize) {
+    let uid = UserId::from_bytes([7u8; 32]);
+    let pc = any_counter(n);
+    let (last, cur) = (pc.last_valid_sequence, pc.current_sequence);
+    let mut map: HashMap<UserId, PeerCounter> = HashMap::with_capacity(2);
+    map.insert(uid.clone(), pc);
+    let sys = ManuallyDrop::new(MonotonicCounterSystem {
+        counters: Arc::new(RwLock::new(map)),
+        storage_path: PathBuf::new(),
+        sync_interval: Duration::from_secs(60),
+        sync_task: None,
+        stats: Arc::new(Mutex::new(CounterStats::default())),
+    });
+    let now: u64 = kani::any();
+    kani::assume(now < (1u64 << 48));
+    unsafe {
+        NOW = now;
+    }
+    let r = poll_once(sys.cleanup_old_sequences());
+    assert!(r.is_some(), "C12/system/cleanup_is_await_free");
+    std::mem::forget(r);
+    let g = sys.counters.read();
+    assert!(g.is_ok(), "C12/system/cleanup_releases_the_lock");
+    if let Ok(g) = g {
+        let e = g.get(&uid);
+        kani::cover!(e.is_some() && e.unwrap().sequence_history.len() < n, "C12/system/cover_history_pruned");
+        assert!(e.is_some(), "C12/system/cleanup_never_forgets_a_peer");
+        if let Some(e) = e {
+            assert!(e.last_valid_sequence == last && e.current_sequence == cur, "C12/system/cleanup_keeps_the_high_water_mark");
+        }
+        std::mem::forget(g);
+    }
+}
+
+macro_rules! system_cleanup_harness {
+    ($name:ident, $n:expr) => {
+        #[kani::proof]
+        #[kani::stub(current_timestamp, stub_now)]
+        #[kani::stub(std::hash::RandomState::new, stub_random_state_c12)]
+        #[kani::stub(std::backtrace::Backtrace::capture, stub_backtrace_c12)]
+        #[kani::unwind(5)]
+        fn $name() {
+            check_system_cleanup($n);
+        }
+    };
+}
+fn stub_backtrace_c12() -> std::backtrace::Backtrace {
+    std::backtrace::Backtrace::disabled()
+}
+// @verif property=C12 class=bounded bound="one tracked peer, history of 1 entry; clock any value < 2^48" fns=MonotonicCounterSystem::cleanup_old_sequences uses=check_system_cleanup,system_cleanup_harness,poll_once,any_counter unwindset="memcmp:34,simd_bitmask_impl:18,Hasher>::write:7,rehash_in_place:10,resize_inner:10,prepare_rehash_in_place:10,FullBucketsIndices:10" tier=quick,thorough panic=violation
+system_cleanup_harness!(c12_system_cleanup_keeps_peers_1, 1);
+// @verif property=C12 class=bounded bound="one tracked peer, history of 2 entries; clock any value < 2^48" fns=MonotonicCounterSystem::cleanup_old_sequences uses=check_system_cleanup,system_cleanup_harness,poll_once,any_counter unwindset="memcmp:34,simd_bitmask_impl:18,Hasher>::write:7,rehash_in_place:10,resize_inner:10,prepare_rehash_in_place:10,FullBucketsIndices:10" tier=thorough panic=violation
+system_cleanup_harness!(c12_system_cleanup_keeps_peers_2, 2);
+
 #[cfg(test)]
 include!("/verif/.build/replay/monotonic_counter.rs");
